@@ -320,6 +320,42 @@ def main() -> int:
     ck.sample({"spelling": spellings[7], "escape": impl[7]})
 
     known = {f["id"]: f for f in load_known() if f["property"] == "C16" and f["status"] == "known"}
+    # ---- letters outside ASCII (the Coq model is ASCII only; this stream is the property's own oracle on the implementation):
+    # unquoted identifiers compare case-insensitively whatever the alphabet, in every position, per dialect that accepts them
+    uni_words = ["t\u00e1bla", "a\u00f1o", "r\u00e9sum\u00e9", "\u00e9", "donn\u00e9es_x", "\u0442\u0430\u0431\u043b\u0438\u0446\u0430", "\u00f8l", "z\u00fcrich1"]
+    dist["non_ascii_probes"] = 0
+    for w in (uni_words[:5] if quick else uni_words):
+        lo = w.lower()
+        variants = [v for v in dict.fromkeys([w.upper(), w.title(), w[0].upper() + w[1:], w[:-1] + w[-1].upper()]) if v != lo and v.lower() == lo]
+        for v in variants:
+            ck.count()
+            bad = None
+            if escape_identifier_name(v) != escape_identifier_name(lo):
+                bad = "escape_identifier_name differs between the two spellings"
+            elif not (Table(v) == Table(lo) and hash(Table(v)) == hash(Table(lo)) and Schema(v) == Schema(lo)
+                      and hash(Schema(v)) == hash(Schema(lo)) and Table(v + "." + v) == Table(lo + "." + lo)):
+                bad = "Table / Schema of the two spellings are not equal (or hash differently)"
+            if bad:
+                spec_failures.append({"suite": "non-ascii-case", "spelling": v, "lower_case": lo, "spec": "unquoted identifiers compare case-insensitively: " + bad})
+                continue
+            for d in (("postgres", "non-validating") if quick else ("postgres", "tsql", "oracle", "duckdb", "non-validating")):
+                try:
+                    o_lo = sql_probe(lo, d)
+                except Exception:      # noqa  - the dialect does not accept such identifiers unquoted
+                    continue
+                dist["non_ascii_probes"] += 1
+                ck.nontriv(("non-ascii", d, v))
+                try:
+                    o_v = sql_probe(v, d)
+                except Exception as e:      # noqa
+                    o_v = {"error": type(e).__name__}
+                link = safe(lambda: run(f"create table {v} as select {v} from src; insert into fin select {lo} from {lo}", d)[3])
+                chain = isinstance(link, list) and any(len(pth) == 3 and str(pth[-1]).startswith("<default>.fin.") and str(pth[0]).startswith("<default>.src.") for pth in link)
+                if o_v != o_lo or not chain:
+                    spec_failures.append({"suite": "non-ascii-case", "dialect": d, "spelling": v, "lower_case": lo,
+                                          "observations_for_spelling": o_v, "observations_for_lower_case": o_lo,
+                                          "column_written_in_one_case_found_again_in_the_other": chain,
+                                          "spec": "unquoted identifiers compare case-insensitively in every position and across statements"})
     for kid, case in known_hits.items():
         if kid in known:
             ck.known(kid, known[kid]["what"] + " (replayed: dialect=%s spelling=%s)" % (case["dialect"], case["spelling"]))
